@@ -28,11 +28,14 @@ def run(res):
     cs = encgen.windows("F") + encgen.windows("R") + encgen.confusions("F", 2) + encgen.confusions("R", 2)
     if res.tier != "quick":
         cs += encgen.confusions("F", 3) + encgen.legal("F")
+    from . import gen
     encrun.standard_run(
-        res, PROP, cs, keep=lambda r: True, what="out-of-range/operand-confusion",
+        res, PROP, lambda vh: cs + encgen.per_device(gen.read_devices(vh), res.tier != "quick"), keep=lambda r: True, what="out-of-range/operand-confusion",
         rule=("every mnemonic x every register 0..31 in each register position x values from well below to well above each field "
               "(incl. negatives, 2^15..2^63) x every index form, on both cores (vlib/encgen.py windows()); every mnemonic x every "
-              "operand list of length 0..2 (thorough: 3) over {low reg, high reg, value, X, Y+, -Z, Y+q, Z} (confusions()); oracle: "
+              "operand list of length 0..2 (thorough: 3) over {low reg, high reg, value, X, Y+, -Z, Y+q, Z} (confusions()); under EVERY device "
+              "row: every mnemonic and the operands one device figure (flash words/bytes, RAM start/end, EEPROM size) beyond each range "
+              "end (per_device()); oracle: "
               "Spec/Isa.expect_at = NONE -> must be an error; = words -> must be exactly those bytes; distinct = distinct case text"),
         exhaustive_note="bounded-exhaustive over the windows and the operand-kind dictionary stated in the rule",
         assume=["register operands written through a .def alias: compared with the same statement on the register itself (alias_cases)",
